@@ -12,9 +12,11 @@ Definition func_dj (a b : func_raw) : Prop := occ_disjoint (fr_addr a) (fr_size 
 Definition line_dj (a b : line_rec) : Prop := occ_disjoint (l_addr a) (l_size a) (l_addr b) (l_size b).
 Definition inl_dj (a b : inl_rec) : Prop :=
   i_depth a <> i_depth b \/ occ_disjoint (i_addr a) (i_size a) (i_addr b) (i_size b).
+Definition win_dj (a b : win_rec) : Prop := occ_disjoint (w_addr a) (w_size a) (w_addr b) (w_size b).
 Definition non_overlapping (rf : raw_file) : Prop :=
   pairwise func_dj (rf_funcs rf) /\
-  Forall (fun fr => pairwise line_dj (fr_lines fr) /\ pairwise inl_dj (fr_inls fr)) (rf_funcs rf).
+  Forall (fun fr => pairwise line_dj (fr_lines fr) /\ pairwise inl_dj (fr_inls fr)) (rf_funcs rf) /\
+  pairwise win_dj (rf_win_fd rf) /\ pairwise win_dj (rf_win_fpo rf).
 
 Lemma occ_sym a1 s1 a2 s2 : occ_disjoint a1 s1 a2 s2 -> occ_disjoint a2 s2 a1 s1.
 Proof. unfold occ_disjoint. tauto. Qed.
@@ -74,6 +76,111 @@ Proof.
   - cbn [option_map]. destruct (rm_get _ x) as [f|] eqn:Eg; [|reflexivity]. exfalso.
     apply func_lookup in Eg; [|assumption]. destruct Eg as (fr & Hin & Hc & _).
     eapply find_none in Ef; [|exact Hin]. cbn in Ef. congruence.
+Qed.
+
+(* ---- STACK WIN tables: with disjoint records insert_win_stack_info repairs nothing *)
+Fixpoint win_list (ws : list win_rec) : list (range * win_rec) :=
+  match ws with
+  | [] => []
+  | w :: t => match win_range w with Some r => (r, w) :: win_list t | None => win_list t end
+  end.
+
+Lemma win_dj_intersects w w' r r' : win_range w = Some r -> win_range w' = Some r' -> win_dj w w' ->
+  intersects r r' = false.
+Proof.
+  unfold win_range. intros E E' Hd. apply mk_range_some in E, E'.
+  destruct E as (S1 & -> & _), E' as (S2 & -> & _). unfold win_dj, occ_disjoint in Hd.
+  unfold intersects. cbn [fst snd]. apply andb_false_iff.
+  destruct Hd as [Hd|[Hd|[Hd|Hd]]]; try contradiction; [right|left]; lia.
+Qed.
+
+Lemma win_collect_disjoint ws : forall acc,
+  (forall lr lw w mr, In (lr, lw) acc -> In w ws -> win_range w = Some mr -> intersects lr mr = false) ->
+  pairwise win_dj ws -> win_collect acc ws = Ret (rev acc ++ win_list ws).
+Proof.
+  induction ws as [|w t IH]; intros acc Hacc Hdj; cbn [win_collect win_list].
+  - rewrite app_nil_r. reflexivity.
+  - destruct Hdj as [Hd1 Hd2]. unfold win_insert. destruct (win_range w) as [mr|] eqn:Er.
+    + assert (Hstep : (match acc with
+                       | [] => Ret [(mr, w)]
+                       | (lr, lw) :: acc' =>
+                           if intersects lr mr then
+                             if w_addr w >? w_addr lw then
+                               match win_range (mk_win (w_addr lw) (wrap32 (w_addr w - w_addr lw)) (w_psize lw) (w_tag lw)) with
+                               | Some lr' => Ret ((mr, w) :: (lr', mk_win (w_addr lw) (wrap32 (w_addr w - w_addr lw)) (w_psize lw) (w_tag lw)) :: acc')
+                               | None => Panic PANIC_WIN_UNWRAP
+                               end
+                             else if negb (range_eqb lr mr) then Ret acc else Ret ((mr, w) :: acc)
+                           else Ret ((mr, w) :: acc)
+                       end) = Ret ((mr, w) :: acc)).
+      { destruct acc as [|[lr lw] acc']; [reflexivity|].
+        rewrite (Hacc lr lw w mr); [reflexivity|left; reflexivity|left; reflexivity|exact Er]. }
+      rewrite Hstep. cbn [obind]. rewrite IH; [cbn [rev]; rewrite <- app_assoc; reflexivity| |exact Hd2].
+      intros lr lw w' mr' [Hin|Hin] Hw' Er'.
+      * inversion Hin; subst. rewrite Forall_forall in Hd1. eapply win_dj_intersects; eauto.
+      * eapply Hacc; [exact Hin|right; exact Hw'|exact Er'].
+    + cbn [obind]. apply IH; [|exact Hd2]. intros lr lw w' mr' Hin Hw' Er'.
+      eapply Hacc; [exact Hin|right; exact Hw'|exact Er'].
+Qed.
+
+Lemma win_list_in ws r w : In (r, w) (win_list ws) <-> In w ws /\ win_range w = Some r.
+Proof.
+  induction ws as [|w0 t IH]; cbn [win_list In]; [tauto|].
+  destruct (win_range w0) as [r0|] eqn:E; cbn [In]; rewrite IH; split.
+  - intros [H|[H1 H2]]; [inversion H; subst; auto|auto].
+  - intros [[->|H1] H2]; [left; congruence|right; auto].
+  - intros [H1 H2]; auto.
+  - intros [[->|H1] H2]; [congruence|auto].
+Qed.
+Lemma win_list_app a b : win_list (a ++ b) = win_list a ++ win_list b.
+Proof.
+  induction a as [|w t IH]; cbn [win_list app]; [reflexivity|].
+  destruct (win_range w); [cbn [app]; f_equal|]; exact IH.
+Qed.
+Lemma win_list_wf ws : Forall wf_win ws -> wf_ranges (win_list ws).
+Proof.
+  intros H. unfold wf_ranges. rewrite Forall_forall. intros [r w] Hin. apply win_list_in in Hin.
+  destruct Hin as [Hin Hr]. rewrite Forall_forall in H. destruct (H _ Hin) as [[A _] [B _]]. cbn [fst].
+  unfold win_range in Hr. eapply mk_range_wf; [| |exact Hr]; lia.
+Qed.
+
+Lemma win_linear ws x : Forall wf_win ws -> pairwise win_dj ws ->
+  rm_get (into_rangemap_safe_p win_eqb (win_list ws)) x = find (fun w => win_covers w x) ws.
+Proof.
+  intros Hwf Hdj. destruct (find (fun w => win_covers w x) ws) as [w|] eqn:Ef.
+  - apply find_some in Ef. destruct Ef as [Hin Hc].
+    apply in_split in Hin. destruct Hin as (a & b & Hab). subst ws.
+    unfold win_covers in Hc. destruct (win_range w) as [r|] eqn:Er; [|discriminate].
+    assert (He : win_list (w :: b) = (r, w) :: win_list b) by (cbn [win_list]; rewrite Er; reflexivity).
+    rewrite win_list_app, He. apply (isolated_complete_p win_eqb win_eqb_eq); [| |assumption].
+    + pose proof (win_list_wf _ Hwf) as H. rewrite win_list_app, He in H. exact H.
+    + intros r' w' Hin'. rewrite <- win_list_app in Hin'. apply win_list_in in Hin'. destruct Hin' as [Hw' Er'].
+      pose proof (pairwise_split win_dj a w b (fun u v H => occ_sym _ _ _ _ H) Hdj w' Hw') as Hd.
+      eapply win_dj_intersects; eauto.
+  - destruct (rm_get _ x) as [w|] eqn:Eg; [|reflexivity]. exfalso.
+    apply (lookup_sound_p win_eqb win_eqb_eq) in Eg; [|apply win_list_wf; assumption].
+    destruct Eg as [r [Hin Hc]]. apply win_list_in in Hin. destruct Hin as [Hin Hr].
+    eapply find_none in Ef; [|exact Hin]. unfold win_covers in Ef. rewrite Hr in Ef. congruence.
+Qed.
+
+Definition ref_psize (rf : raw_file) (fr : func_raw) (x : Z) : Z :=
+  match find (fun w => win_covers w x) (rf_win_fd rf) with
+  | Some w => w_psize w
+  | None => match find (fun w => win_covers w x) (rf_win_fpo rf) with
+            | Some w => w_psize w
+            | None => fr_psize fr
+            end
+  end.
+
+Lemma psize_linear rf st fr x : wf_file rf -> st_rel true rf st ->
+  pairwise win_dj (rf_win_fd rf) -> pairwise win_dj (rf_win_fpo rf) ->
+  param_size st (fin_func true fr) x = ref_psize rf fr x.
+Proof.
+  intros (_ & _ & Hw1 & Hw2) Hrel Hd1 Hd2. unfold param_size, ref_psize.
+  destruct (sr_fd _ _ _ Hrel) as (wl1 & C1 & _ & E1). destruct (sr_fpo _ _ _ Hrel) as (wl2 & C2 & _ & E2).
+  rewrite win_collect_disjoint in C1, C2; try assumption; try (intros ? ? ? ? []).
+  cbn [rev app] in C1, C2. inversion C1; inversion C2; subst wl1 wl2.
+  rewrite E1, E2, !win_linear by assumption. reflexivity.
 Qed.
 
 (* ---- line tables *)
@@ -289,7 +396,7 @@ Lemma equals_linear_scan p rf mbase instr :
   wf_file rf -> non_overlapping rf -> 0 <= mbase -> mbase <= instr < two64 ->
   exists o, symbolize p rf mbase instr = Ret o /\
     match ref_func rf (instr - mbase) with
-    | Some fr => exists ps, o = ref_fill_func rf ps mbase (instr - mbase) fr
+    | Some fr => o = ref_fill_func rf (ref_psize rf fr (instr - mbase)) mbase (instr - mbase) fr
     | None =>
         ((forall q, In q (rf_publics rf) -> instr - mbase < p_addr q) /\ o = empty_out) \/
         (exists pb, In pb (rf_publics rf) /\ p_addr pb <= instr - mbase /\
@@ -300,7 +407,7 @@ Lemma equals_linear_scan p rf mbase instr :
             (~ cut /\ o = mk_out (Some (p_name pb, p_addr pb + mbase, p_psize pb)) None [])))
     end.
 Proof.
-  intros Hwf [Hdf Hdr] Hmb [Hge Hin].
+  intros Hwf (Hdf & Hdr & Hdw1 & Hdw2) Hmb [Hge Hin].
   destruct (symbolize_cases true p rf mbase instr Hwf Hmb Hin) as (st & o & Hrel & _ & Hs & Hc).
   exists o. split; [exact Hs|]. pose proof Hwf as (Hwff & _).
   pose proof (funcs_linear rf (instr - mbase) Hwff Hdf) as Hlin. rewrite <- (sr_funcs _ _ _ Hrel) in Hlin.
@@ -309,7 +416,8 @@ Proof.
     cbn [option_map] in Hlin. unfold ref_func in Er. apply find_some in Er. destruct Er as [Hfr' _].
     rewrite Forall_forall in Hdr, Hwff. destruct (Hdr _ Hfr') as [Hl Hi].
     assert (Heq : fin_func true fr = fin_func true fr') by (injection Hlin; intros; congruence).
-    rewrite Heq. eexists. apply fill_func_linear; auto.
+    rewrite Heq. rewrite <- (psize_linear rf st fr' (instr - mbase) Hwf Hrel Hdw1 Hdw2).
+    apply fill_func_linear; auto.
   - rewrite Hg in Hlin. destruct (ref_func rf (instr - mbase)); [discriminate|].
     destruct (fill_public_spec true rf st mbase (instr - mbase) Hwf Hrel Hg) as [H|(pb & A & B & C & D)]; [left; exact H|].
     right. exists pb. split; [assumption|]. split; [assumption|]. split; [assumption|].
